@@ -508,4 +508,18 @@ def transformMarked (ops : List Op) (s : Stream) : Option (MStream × Bufs) :=
 def transform (ops : List Op) (s : Stream) : Option Stream :=
   (transformMarked ops s).map fun r => unmark r.1
 
+/-! ### derivation: `Transformer.apply` -/
+
+/-- Every operation method (`remove()`, `rename()`, `copy()`, `select()`, …) goes through
+    `Transformer.apply`: it returns a NEW transformer whose chain is the chain of the one it was
+    called on plus one link.  `h` = the chains of all transformer objects built so far (transformers
+    are values: nothing else happens to `h`), `k` = the object the method is called on. -/
+def derive {α : Type} (h : List (List α)) (k : Nat) (x : α) : List (List α) :=
+  h ++ [h.getD k [] ++ [x]]
+
+/-- the chains of all objects after each derivation of a history -/
+def history {α : Type} : List (List α) → List (Nat × α) → List (List (List α))
+  | _, [] => []
+  | h, (k, x) :: ds => derive h k x :: history (derive h k x) ds
+
 end Genshi.Tf
